@@ -43,7 +43,7 @@ SPEC = dict(
          'start from len == mem (reached through catn_). After every call: the clauses above (length, capacity, bytes, terminator, formatter oracle, comparison sign), capacity <= bytes granted, operand '
          'bytes unchanged (getn: exactly the popped tail arrived, the rest of the destination untouched), every byte of the region outside the live blocks equal to its shadow copy; at the end every block released.',
     exhaustive={},
-    require=['arena-state-compared-with-model', 'arena-non-owned-bytes-verified', 'arena-caller-operand-unchanged', 'arena-operand-directly-behind-storage', 'arena-operand-directly-in-front',
+    require=['formatted-append-with-a-failing-conversion', 'arena-state-compared-with-model', 'arena-non-owned-bytes-verified', 'arena-caller-operand-unchanged', 'arena-operand-directly-behind-storage', 'arena-operand-directly-in-front',
              'arena-operand-one-element-behind-storage', 'arena-operand-one-element-in-front', 'arena-operand-in-released-former-block', 'arena-growth-moved-block-with-adjacent-operand',
              'arena-growth-in-place', 'arena-append-growth-with-source-directly-behind', 'arena-append-exactly-full-source-directly-behind', 'arena-other-string-storage-directly-behind',
              'arena-formatted-append-adjacent-argument', 'arena-trim-set-adjacent', 'arena-cmp-operand-adjacent', 'arena-getn-destination-adjacent', 'arena-terminator-after-content-inside-capacity',
